@@ -412,10 +412,16 @@ def _fold(e, env: dict):
         a = _fold(e.args[0], env)
         if a is not None and a[1] == '':
             return ('c', True)       # every string starts with ''
-    if isinstance(e, ast.BoolOp):
-        vs = [_fold(x, env) for x in e.values]
-        if all(v is not None for v in vs):
-            return ('c', all(v[1] for v in vs) if isinstance(e.op, ast.And) else any(v[1] for v in vs))
+    if isinstance(e, ast.BoolOp):       # left to right with short circuit: `'' and <anything>` is false
+        for x in e.values:
+            v = _fold(x, env)
+            if v is None:
+                return None
+            if isinstance(e.op, ast.And) and not v[1]:
+                return ('c', False)
+            if isinstance(e.op, ast.Or) and v[1]:
+                return ('c', True)
+        return ('c', isinstance(e.op, ast.And))
     return None
 
 
@@ -617,7 +623,10 @@ def translate() -> tuple[str, dict]:
     lr_ok, lr_why = load_resets(find_def(vpk.body, ast.FunctionDef, 'load_dirfile'))
     walks = {}
     for nm, want in (('__iter__', 'infos'), ('__len__', 'count'), ('filenames', 'names'), ('fileinfos', 'infos')):
-        walks[nm] = (walk_shape(find_def(vpk.body, ast.FunctionDef, nm), vpk), want)
+        try:
+            walks[nm] = (walk_shape(find_def(vpk.body, ast.FunctionDef, nm), vpk), want)
+        except TranslateError as e:       # a shape that is not understood is a failed (named) obligation, not a failed translation
+            walks[nm] = (f'not understood: {e}', want)
     side = {'mode_table': mt, 'exit_table': rows, 'guarded': sorted(guarded), 'fileinfo_write_guarded': fw_ok, 'check_writable_def': chk_def,
             'other_mutating_methods': others, 'load_resets': lr_ok, 'load_resets_problems': lr_why, 'walks': {k: v[0] for k, v in walks.items()},
             'digests': {nm: ast_digest(f) for nm, f in fns.items()}}
